@@ -6,6 +6,7 @@ import (
 	"net"
 	"net/netip"
 	"sync"
+	"sync/atomic"
 	"time"
 
 	"github.com/mycoria/mycoria/api/dns"
@@ -27,6 +28,10 @@ import (
 // routing table, router, switch, peering) assembled from the real packages
 // without starting their timer-driven workers.
 type Node struct {
+	// OnRoutingTable, when set, runs whenever the router asks its instance for the routing table - e.g. from
+	// peering.AddLink / RemoveLink just before they touch the table: a scheduling point for drivers.
+	OnRoutingTable atomic.Pointer[func()]
+
 	W    *World
 	Idx  int
 	Name string
@@ -109,7 +114,12 @@ func (n *Node) Switch() *switchr.Switch { return n.Sw }
 func (n *Node) Router() *router.Router { return n.Rt }
 
 // RoutingTable returns the routing table.
-func (n *Node) RoutingTable() *m.RoutingTable { return n.Rt.Table() }
+func (n *Node) RoutingTable() *m.RoutingTable {
+	if f := n.OnRoutingTable.Load(); f != nil {
+		(*f)()
+	}
+	return n.Rt.Table()
+}
 
 // NodeOpts configures a node.
 type NodeOpts struct {
